@@ -136,6 +136,10 @@ theorem sameBook_writeFile (s : State) (r : Nat) (d : J) : SameBook s (s.writeFi
   ⟨rfl, rfl, rfl, rfl⟩
 theorem sameBook_saveToResource (s : State) (o : Obj) : SameBook s (saveToResource s o) :=
   sameBook_writeFile _ _ _
+theorem sameBook_trySave (s : State) (o : Obj) : SameBook s (trySave s o).1 := by
+  unfold trySave; split
+  · exact SameBook.refl s
+  · exact sameBook_saveToResource s o
 theorem sameBook_setObj (s : State) (i : Nat) (o : Obj) : SameBook s (s.setObj i o) :=
   ⟨rfl, rfl, rfl, rfl⟩
 theorem sameBook_setCell (s : State) (i : Nat) (t : T) : SameBook s (s.setCell i t) :=
@@ -249,7 +253,12 @@ theorem keeps_flushSer (s : State) (oi : Nat) (o : Obj) (force : Bool)
             have hb1 : SameBook s s1 := by have := sameBook_mergeInto s oi o e.contents; rwa [hm] at this
             cases err with
             | some er => exact keeps_del he hb1 _ hw
-            | none => exact keeps_del he (hb1.trans (sameBook_saveToResource s1 o)) _ hw
+            | none =>
+              simp only
+              cases hts : trySave s1 o with
+              | mk s2 werr =>
+                have hb2 : SameBook s1 s2 := by have := sameBook_trySave s1 o; rwa [hts] at this
+                exact keeps_del he (hb1.trans hb2) _ hw
       · exact keeps_del he (SameBook.refl s) _ hw
   · exact Keeps.refl s
 
@@ -308,14 +317,30 @@ theorem keeps_flushMem (s : State) (oi : Nat) (o : Obj) (force : Bool)
           · exact keeps_del' he (SameBook.refl s) 1 hw rfl rfl rfl rfl
           · exact keeps_replace' { e with modified := false } he (SameBook.refl s) (s.size - 1)
               (by intro hok; have := size_ge_weight hok he; rw [hw0, ← hw] at *; omega) rfl rfl rfl rfl
-        · have hb := (sameBook_setObj s oi { o with cell := e.cell }).trans
-            (sameBook_saveToResource (s.setObj oi { o with cell := e.cell }) { o with cell := e.cell })
-          cases force
-          · exact keeps_del' he hb 1 hw rfl rfl rfl rfl
-          · refine keeps_replace' _ he hb (s.size - 1)
-              (by intro hok; have := size_ge_weight hok he; rw [hw0, ← hw] at *; omega) rfl ?_ rfl rfl
-            show _ - 1 = s.size - 1
-            rw [hb.2.1]
+        · cases hts : trySave (s.setObj oi { o with cell := e.cell }) { o with cell := e.cell } with
+          | mk s1 werr =>
+            have hb : SameBook s s1 := by
+              have := (sameBook_setObj s oi { o with cell := e.cell }).trans
+                (sameBook_trySave (s.setObj oi { o with cell := e.cell }) { o with cell := e.cell })
+              rwa [hts] at this
+            simp only
+            cases werr with
+            | some er =>
+              simp only
+              cases force
+              · exact keeps_del' he hb 1 hw rfl rfl rfl rfl
+              · refine keeps_replace' _ he hb (s.size - 1)
+                  (by intro hok; have := size_ge_weight hok he; rw [hw0, ← hw] at *; omega) rfl ?_ rfl rfl
+                show _ - 1 = s.size - 1
+                rw [hb.2.1]
+            | none =>
+              simp only
+              cases force
+              · exact keeps_del' he hb 1 hw rfl rfl rfl rfl
+              · refine keeps_replace' _ he hb (s.size - 1)
+                  (by intro hok; have := size_ge_weight hok he; rw [hw0, ← hw] at *; omega) rfl ?_ rfl rfl
+                show _ - 1 = s.size - 1
+                rw [hb.2.1]
   · -- a container of its own (memory only)
     exact Keeps.of_sameBook ⟨rfl, rfl, rfl, rfl⟩
 
@@ -567,7 +592,7 @@ theorem keeps_save (s : State) (oi : Nat) : Keeps s (save s oi).1 := by
             ⟨.leaf .null, .leaf .null, (s.register oi).stat o.res, o.cell, true⟩ he' h0 1
             (by simp [weight, hs']) rfl rfl rfl rfl
       · exact Keeps.of_sameBook h0
-    · exact Keeps.of_sameBook (sameBook_saveToResource s _)
+    · exact Keeps.of_sameBook (sameBook_trySave s _)
 
 
 theorem sameBook_putNode (s : State) (h : Handle) (t : T) : SameBook s (putNode s h t) := by
@@ -721,6 +746,7 @@ theorem keeps_step (s : State) (st : Step) : Keeps s (step s st) := by
   | openObj d r data => exact keeps_openObj s d r data
   | ext r d => exact Keeps.of_sameBook (sameBook_writeFile s r d)
   | extDel r => exact Keeps.of_sameBook ⟨rfl, rfl, rfl, rfl⟩
+  | setFailing rs => exact Keeps.of_sameBook ⟨rfl, rfl, rfl, rfl⟩
 
 theorem keeps_run (s : State) (steps : List Step) : Keeps s (run s steps) := by
   induction steps generalizing s with
